@@ -59,4 +59,22 @@ def judgeFlow (g : MGraph) (s t : Nat) (fl : List (Nat × Int)) (v : Int) : Opti
     if S.contains t then some s!"not maximum: the sink is reachable in the residual graph (value {v})"
     else none
 
+/-! ### the exact range of the capacity type -/
+
+/-- the largest value up to which the arithmetic of the capacity type named in a `flow` request is
+exact: the maximum of the unsigned types, `2^53` / `2^24` for `f64` / `f32` on integers (`f64q`: on
+multiples of 1/4, which the harness prints multiplied by 4) -/
+def typeMax (w : String) : Option Int :=
+  if w == "u32" then some 4294967295
+  else if w == "u64" || w == "usize" then some 18446744073709551615
+  else if w == "f64" || w == "f64q" then some 9007199254740992
+  else if w == "f32" || w == "f32q" then some 16777216
+  else none
+
+/-- every capacity is in `0..M` and the capacity of the cut `({s}, V ∖ {s})` — the sum of the
+capacities of the non-loop edges out of the source — is at most `M`: the hypothesis of
+`C15_bounded_capacities` -/
+def capsFitB (M : Int) (g : MGraph) (s : Nat) : Bool :=
+  g.edges.all (fun e => decide (0 ≤ e.w ∧ e.w ≤ M)) && decide (cutCap g [s] ≤ M)
+
 end PetgraphModel.C15
